@@ -456,3 +456,143 @@ Proof. eexists. split; [vm_compute; reflexivity|]. split; [reflexivity|]. split;
 Definition C12_callbacks_all_%(mod)s := (C12_step_clause_%(mod)s, C12_stop_fetch_%(mod)s, C12_callbacks_%(mod)s, C12_callbacks_%(mod)s_explicit, C12_callbacks_safe_%(mod)s, C12_callbacks_wdm_%(mod)s, C12_callbacks_run_%(mod)s, ex_good, ex_step).
 Print Assumptions C12_callbacks_all_%(mod)s.
 """
+
+
+# per-run file C12_stop.v: "never before" tied to the fetched opcode (one Step) and over histories, both models
+STOP_V = """(* GENERATED per run by checks/cpucb.py: C12 (ii) "and never before", tied to the FETCHED OPCODE, over both regenerated models *)
+From Coq Require Import ZArith List Bool NArith.
+From Lib Require Import ZOps Machine.
+From Gen Require Import GenFields.
+From Gen Require GenCpu65 GenCpuAlt.
+From Props Require Import SafeLib CbLib StopProps.
+From Run Require C12_GenCpu65 C12_GenCpuAlt C12_cb_GenCpu65 C12_cb_GenCpuAlt.
+From Run Require Import C12_run.
+Import ListNotations.
+Local Open Scope Z_scope.
+
+(* "the Step issued at s fetches opcode $DB": it does not panic and its trace is  tC' ++ [EvR a 219] ++ pc ++ tA ++ trace s
+   with a = PBR:PC of the fetch, pc the OnPC callback iff registered at a, tA the interrupt entry (no callback) *)
+Definition fetches_stp (Step : st -> res (Z * bool)) (s : st) : Prop :=
+  match Step s with
+  | Ok _ s' =>
+      let a := get f_PRK s' * 65536 + get f_PPC s' in
+      exists tA tC', trace s' = (tC' ++ [EvR a %(stp)d]) ++ (if onpc s a then [EvPC a] else []) ++ tA ++ trace s /\\ cbs tA = []
+  | Panic => False
+  end.
+
+Section OneModel.
+  Variables (Step : st -> res (Z * bool)) (Reset TriggerIRQ triggerNMI : st -> res unit).
+  Hypothesis Hstep : forall s, Inv (Bty fwidth) s ->
+    safe (fun r s' => (exists c, r = (c, z2b (get f_Stopped s')) /\\ 1 <= c <= 255 /\\
+                       get f_AllCycles s' = add64 (get f_AllCycles s) c /\\
+                       (get f_Stopped s' = get f_Stopped s \\/ get f_Stopped s' = 1)) /\\ Inv (Bty fwidth) s') (Step s).
+  Hypothesis Hreset : forall s, Inv (Bty fwidth) s -> safe (fun _ s' => get f_Stopped s' = 0 /\\ Inv (Bty fwidth) s') (Reset s).
+  Hypothesis Hirq : forall s, Inv (Bty fwidth) s -> safe (fun _ s' => get f_Stopped s' = get f_Stopped s /\\ Inv (Bty fwidth) s') (TriggerIRQ s).
+  Hypothesis Hnmi : forall s, Inv (Bty fwidth) s -> safe (fun _ s' => get f_Stopped s' = get f_Stopped s /\\ Inv (Bty fwidth) s') (triggerNMI s).
+  Hypothesis Hfetch : forall s, Inv (Bty fwidth) s -> forall r s', Step s = Ok r s' ->
+    let a := get f_PRK s' * 65536 + get f_PPC s' in
+    let pc := if onpc s a then [EvPC a] else [] in
+    exists tA tC opcode,
+      trace s' = tC ++ pc ++ tA ++ trace s /\\ cbs tA = [] /\\ (exists tC', tC = tC' ++ [EvR a opcode]) /\\
+      (get f_Stopped s' <> get f_Stopped s -> opcode = %(stp)d).
+
+  (* one Step: the Stopped field changes only when the fetched opcode is $DB, and then to 1 *)
+  Theorem stop_only_stp : forall s, Inv (Bty fwidth) s -> forall r s', Step s = Ok r s' ->
+    let a := get f_PRK s' * 65536 + get f_PPC s' in
+    let pc := if onpc s a then [EvPC a] else [] in
+    exists tA tC opcode,
+      trace s' = tC ++ pc ++ tA ++ trace s /\\ cbs tA = [] /\\ (exists tC', tC = tC' ++ [EvR a opcode]) /\\
+      (get f_Stopped s' <> get f_Stopped s -> opcode = %(stp)d /\\ get f_Stopped s' = 1).
+  Proof.
+    intros s Hi r s' HS. destruct (Hfetch s Hi r s' HS) as (tA & tC & o & E & CA & EC & H).
+    exists tA, tC, o. split; [exact E|]. split; [exact CA|]. split; [exact EC|].
+    intro Hne. split; [exact (H Hne)|].
+    pose proof (Hstep s Hi) as H12. rewrite HS in H12. cbv beta iota delta [safe] in H12.
+    destruct H12 as [(c & _ & _ & _ & [Hs|Hs]) _]; [contradiction | exact Hs].
+  Qed.
+
+  (* the contract clause of Props/StopProps.v *)
+  Lemma c_stp : forall s b s', Inv (Bty fwidth) s -> ostep Step s = Some (b, s') -> stoppedb s' <> stoppedb s -> fetches_stp Step s.
+  Proof.
+    intros s b s' Hi E Hne. unfold ostep in E. unfold fetches_stp.
+    destruct (Step s) as [[n b0] s1|] eqn:HS; [|discriminate E]. inversion E; subst b0 s1.
+    destruct (Hfetch s Hi (n, b) s' HS) as (tA & tC & o & Et & CA & [tC' EC] & H).
+    assert (Ho : o = %(stp)d) by (apply H; intro Hx; apply Hne; unfold stoppedb; rewrite Hx; reflexivity).
+    subst o. exists tA, tC'. rewrite <- EC. split; [exact Et | exact CA].
+  Qed.
+
+  Notation HRUN := (hrun st (ostep Step) (ocall Reset) (ocall TriggerIRQ) (ocall triggerNMI)).
+  Notation NOSTP := (no_stp st (ostep Step) (ocall Reset) (ocall TriggerIRQ) (ocall triggerNMI) (fetches_stp Step)).
+
+  (* histories: from a state that is not stopped, as long as no Step of the history fetches $DB every Step reports false *)
+  Theorem stop_never_before_inst : forall h s, Inv (Bty fwidth) s -> stoppedb s = false -> NOSTP h s ->
+    exists os sf, HRUN h s = Some (os, sf) /\\ Inv (Bty fwidth) sf /\\ stoppedb sf = false /\\ all_false os.
+  Proof.
+    exact (stop_never_before st _ _ _ _ stoppedb (Inv (Bty fwidth)) (c_step Step Hstep) (c_reset Reset Hreset)
+             (c_keep TriggerIRQ Hirq) (c_keep triggerNMI Hnmi) (fetches_stp Step) c_stp).
+  Qed.
+
+  (* ... and, whatever happened before, after a Reset *)
+  Theorem stop_never_before_since_reset_inst : forall h1 h2 s, Inv (Bty fwidth) s ->
+    exists o1 s1, HRUN (h1 ++ [CReset]) s = Some (o1, s1) /\\ Inv (Bty fwidth) s1 /\\
+      (NOSTP h2 s1 -> exists o2 sf, HRUN h2 s1 = Some (o2, sf) /\\ Inv (Bty fwidth) sf /\\ stoppedb sf = false /\\ all_false o2).
+  Proof.
+    exact (stop_never_before_since_reset st _ _ _ _ stoppedb (Inv (Bty fwidth)) (c_step Step Hstep) (c_reset Reset Hreset)
+             (c_keep TriggerIRQ Hirq) (c_keep triggerNMI Hnmi) (fetches_stp Step) c_stp).
+  Qed.
+End OneModel.
+
+Theorem C12_stop_only_stp_GenCpu65 : forall s, Inv (Bty fwidth) s -> forall r s', GenCpu65.Step s = Ok r s' ->
+  let a := get f_PRK s' * 65536 + get f_PPC s' in
+  let pc := if onpc s a then [EvPC a] else [] in
+  exists tA tC opcode,
+    trace s' = tC ++ pc ++ tA ++ trace s /\\ cbs tA = [] /\\ (exists tC', tC = tC' ++ [EvR a opcode]) /\\
+    (get f_Stopped s' <> get f_Stopped s -> opcode = %(stp)d /\\ get f_Stopped s' = 1).
+Proof. exact (stop_only_stp GenCpu65.Step C12_GenCpu65.C12_step_GenCpu65 C12_cb_GenCpu65.C12_stop_fetch_GenCpu65). Qed.
+
+Theorem C12_stop_only_stp_GenCpuAlt : forall s, Inv (Bty fwidth) s -> forall r s', GenCpuAlt.Step s = Ok r s' ->
+  let a := get f_PRK s' * 65536 + get f_PPC s' in
+  let pc := if onpc s a then [EvPC a] else [] in
+  exists tA tC opcode,
+    trace s' = tC ++ pc ++ tA ++ trace s /\\ cbs tA = [] /\\ (exists tC', tC = tC' ++ [EvR a opcode]) /\\
+    (get f_Stopped s' <> get f_Stopped s -> opcode = %(stp)d /\\ get f_Stopped s' = 1).
+Proof. exact (stop_only_stp GenCpuAlt.Step C12_GenCpuAlt.C12_step_GenCpuAlt C12_cb_GenCpuAlt.C12_stop_fetch_GenCpuAlt). Qed.
+
+Theorem C12_stop_never_before_GenCpu65 : forall h s, Inv (Bty fwidth) s -> stoppedb s = false ->
+  no_stp st (ostep GenCpu65.Step) (ocall GenCpu65.Reset) (ocall GenCpu65.TriggerIRQ) (ocall GenCpu65.triggerNMI) (fetches_stp GenCpu65.Step) h s ->
+  exists os sf, hrun st (ostep GenCpu65.Step) (ocall GenCpu65.Reset) (ocall GenCpu65.TriggerIRQ) (ocall GenCpu65.triggerNMI) h s = Some (os, sf) /\\
+                Inv (Bty fwidth) sf /\\ stoppedb sf = false /\\ all_false os.
+Proof.
+  exact (stop_never_before_inst _ _ _ _ C12_GenCpu65.C12_step_GenCpu65 C12_GenCpu65.C12_reset_GenCpu65 C12_GenCpu65.C12_irq_GenCpu65
+           C12_GenCpu65.C12_nmi_GenCpu65 C12_cb_GenCpu65.C12_stop_fetch_GenCpu65).
+Qed.
+Theorem C12_stop_never_before_GenCpuAlt : forall h s, Inv (Bty fwidth) s -> stoppedb s = false ->
+  no_stp st (ostep GenCpuAlt.Step) (ocall GenCpuAlt.Reset) (ocall GenCpuAlt.TriggerIRQ) (ocall GenCpuAlt.triggerNMI) (fetches_stp GenCpuAlt.Step) h s ->
+  exists os sf, hrun st (ostep GenCpuAlt.Step) (ocall GenCpuAlt.Reset) (ocall GenCpuAlt.TriggerIRQ) (ocall GenCpuAlt.triggerNMI) h s = Some (os, sf) /\\
+                Inv (Bty fwidth) sf /\\ stoppedb sf = false /\\ all_false os.
+Proof.
+  exact (stop_never_before_inst _ _ _ _ C12_GenCpuAlt.C12_step_GenCpuAlt C12_GenCpuAlt.C12_reset_GenCpuAlt C12_GenCpuAlt.C12_irq_GenCpuAlt
+           C12_GenCpuAlt.C12_nmi_GenCpuAlt C12_cb_GenCpuAlt.C12_stop_fetch_GenCpuAlt).
+Qed.
+Definition C12_stop_never_before_since_reset_GenCpu65 := stop_never_before_since_reset_inst _ _ _ _ C12_GenCpu65.C12_step_GenCpu65 C12_GenCpu65.C12_reset_GenCpu65
+  C12_GenCpu65.C12_irq_GenCpu65 C12_GenCpu65.C12_nmi_GenCpu65 C12_cb_GenCpu65.C12_stop_fetch_GenCpu65.
+Definition C12_stop_never_before_since_reset_GenCpuAlt := stop_never_before_since_reset_inst _ _ _ _ C12_GenCpuAlt.C12_step_GenCpuAlt C12_GenCpuAlt.C12_reset_GenCpuAlt
+  C12_GenCpuAlt.C12_irq_GenCpuAlt C12_GenCpuAlt.C12_nmi_GenCpuAlt C12_cb_GenCpuAlt.C12_stop_fetch_GenCpuAlt.
+
+(* non-vacuity: the state of C12_cb's example with the opcode at the IRQ target replaced by $DB: the Step enters the
+   interrupt, fetches $DB at $001234, sets Stopped; a state whose next opcode is not $DB satisfies no_stp for [CStep] *)
+Definition ex_stp_state : st :=
+  mkst C12_cb_GenCpu65.ex_regs (fun a => if a =? 4660 then %(stp)d else C12_cb_GenCpu65.ex_mem a) [] (fun a => a =? 4660) true.
+Definition ex_stp_obs : option (bool * Z * Z * list ev) :=
+  match GenCpu65.Step ex_stp_state with
+  | Ok (_, b) s' => Some (b, get f_Stopped ex_stp_state, get f_Stopped s', firstn 2 (trace s'))
+  | Panic => None
+  end.
+(* reported flag, Stopped before, Stopped after, the two newest events: the fetch of $DB at $001234 after OnPC($001234) *)
+Example ex_stp : ex_stp_obs = Some (true, 0, 1, [EvR 4660 %(stp)d; EvPC 4660]).
+Proof. vm_compute. reflexivity. Qed.
+
+Definition C12_stop_all := (C12_stop_only_stp_GenCpu65, C12_stop_only_stp_GenCpuAlt, C12_stop_never_before_GenCpu65, C12_stop_never_before_GenCpuAlt,
+                            C12_stop_never_before_since_reset_GenCpu65, C12_stop_never_before_since_reset_GenCpuAlt, ex_stp).
+Print Assumptions C12_stop_all.
+""" % {"stp": STP_OPCODE}
